@@ -1096,6 +1096,11 @@ def solve_sylvester_KPM(
             return zero
         if index[1] == len(eigs) - 1:
             return solve_sylvester_kpm(Y, index) + solve_sylvester_explicit(Y, index)
+        if index[0] == len(eigs) - 1:
+            raise NotImplementedError(
+                "The KPM solver does not support left-implicit solves "
+                "(the implicit block as the row index)."
+            )
         return solve_sylvester_explicit(Y, index)
 
     return solve_sylvester
